@@ -1,4 +1,5 @@
 """c05 — scheduler property; see sched_common.py."""
+import coq_cases
 import sched_common
 
 DEP_FILES = ["SchedModel.v", "SchedLemmas.v", "SchedInv.v", "SchedInv2.v", "SchedProps.v", "SchedInv3.v", "SchedInv4.v", "SchedTheorems.v", "SchedLive.v"]
@@ -7,5 +8,7 @@ PID = "C05"
 
 def run(chk):
     chk.recheck_proofs()
-    sched_common.apply(chk, PID, which=("full" if PID == "C19" else "core"))
+    s = sched_common.apply(chk, PID, which=("full" if PID == "C19" else "core"))
+    if s and s.get("coq_traces"):
+        coq_cases.check_sched(chk, s["coq_traces"])
     chk.assumptions += sched_common.ASSUMPTIONS.get(PID, []) + sched_common.ASSUMPTIONS["*"]
